@@ -3,7 +3,7 @@ CONSTANTS
   Constructs = {"pp", "pfe", "worker", "map", "gen"}
   Ns = {0, 1, 2, 3, 4, 5}
   Ks = {1, 2, 3}
-  FKinds = {"err", "panicErr", "skip", "eof", "excl"}
+  FKinds = {"err", "panicErr", "skip", "eof", "excl", "panicW_EOF"}
   MaxFaults = 2
   MaxFaultPos = 5
   OptSet <- OptsCore
